@@ -256,14 +256,7 @@ def r4_state_dependent_width_rechecked(ctx: Ctx) -> None:
                   "a later pass that infers another length must fail, not overwrite the length the labels were placed with")
 
     def raising_compare(fn_node: ast.FunctionDef, other: str) -> bool:
-        for s in walk_no_nested(fn_node):
-            if isinstance(s, ast.If) and always_raises(s.body):
-                for c in ast.walk(s.test):
-                    if isinstance(c, ast.Compare) and len(c.ops) == 1 and isinstance(c.ops[0], ast.NotEq):
-                        pair = {unparse(c.left), unparse(c.comparators[0])}
-                        if pair == {recorded, other}:
-                            return True
-        return False
+        return _raising_compare(fn_node, recorded, other)
 
     # 2. emit: every return of emitted bytes is dominated by a raising comparison of len(bytes) with the record
     g = CFG(em.node)
@@ -290,13 +283,15 @@ def r4_state_dependent_width_rechecked(ctx: Ctx) -> None:
 
 
 def _raising_compare(fn_node: ast.FunctionDef, recorded: str, other: str) -> bool:
-    for s in walk_no_nested(fn_node):
-        if isinstance(s, ast.If) and always_raises(s.body):
-            for c in ast.walk(s.test):
-                if isinstance(c, ast.Compare) and len(c.ops) == 1 and isinstance(c.ops[0], ast.NotEq):
-                    if {unparse(c.left), unparse(c.comparators[0])} == {recorded, other}:
-                        return True
-    return False
+    """the function raises when a length was recorded and differs from `other` (any branch layout: evaluated over the two atoms)"""
+    from ..facts import outcome_under
+
+    env = {f"{recorded} is None": False, f"{recorded} == {other}": False, recorded: True, f"{other} == {recorded}": False}
+    try:
+        return outcome_under(fn_node, env) == "raise"
+    except AnalysisError:
+        # tests over something else: fall back to the direct shape
+        return any(isinstance(s, ast.If) and raising_compare_inline(s, recorded, other) for s in walk_no_nested(fn_node))
 
 
 def raising_compare_inline(s: ast.If, recorded: str, other: str) -> bool:
@@ -307,7 +302,6 @@ def raising_compare_inline(s: ast.If, recorded: str, other: str) -> bool:
             if {unparse(c.left), unparse(c.comparators[0])} == {recorded, other}:
                 return True
     return False
-
 
 
 def r5_position_bookkeeping(ctx: Ctx) -> None:
